@@ -89,6 +89,23 @@ Theorem rdata_eq_iff_canonical : forall a b da db,
 Proof. exact s_eq_iff_fields. Qed.
 Print Assumptions rdata_eq_iff_canonical.
 
+(* relative names: a record that has one never equals a record that has none; two such records
+   are == iff the values agree after completing the relative names with the root *)
+Theorem relative_record_never_equals_absolute : forall a b da db,
+  s_digest_rel a = Ok (da, true) -> s_digest_rel b = Ok (db, false) ->
+  s_eq a b = Ok false /\ s_eq b a = Ok false.
+Proof. exact relative_never_equals_absolute. Qed.
+Print Assumptions relative_record_never_equals_absolute.
+
+Theorem rdata_eq_iff_canonical_relative : forall a b da db,
+  schema_wf (sfs a) = true ->
+  scls a = scls b -> styp a = styp b -> sfs b = sfs a -> slow b = slow a ->
+  valid_fields (sfs a) (absvals (svs a)) = true -> valid_fields (sfs a) (absvals (svs b)) = true ->
+  s_digest_rel a = Ok (da, true) -> s_digest_rel b = Ok (db, true) ->
+  (s_eq a b = Ok true <-> vals_ci (slow a) (absvals (svs a)) (absvals (svs b))).
+Proof. exact s_eq_iff_fields_relative. Qed.
+Print Assumptions rdata_eq_iff_canonical_relative.
+
 (* to_digestable(origin) = RFC 4034 6.2 canonical RDATA (C15's reference), for every origin *)
 Theorem digest_is_rfc4034_canonical : forall r origin fl,
   slow r = DnssecM.rfc_downcased (styp r) -> tf_fields (sfs r) (svs r) = Ok fl ->
@@ -126,6 +143,14 @@ Example ex_mx :
   s_eq ex_mx1 ex_mx2 = Ok true /\ vals_ci true (svs ex_mx1) (svs ex_mx2) /\
   tf_fields (sfs ex_mx1) (svs ex_mx1) = Ok [DnssecM.FRaw [0; 10]; DnssecM.FName [[77; 97]; []]].
 Proof. repeat split; repeat constructor. Qed.
+Definition ex_ns_rel1 := mkS 0 1 2 0 [FS (FName true)] CkNone true [VS (VN [[97]])].
+Definition ex_ns_rel2 := mkS 1 1 2 0 [FS (FName true)] CkNone true [VS (VN [[65]])].
+Example ex_relative :
+  s_digest_rel ex_ns_rel1 = Ok ([1; 97; 0], true) /\ s_digest_rel ex_ns_rel2 = Ok ([1; 97; 0], true) /\
+  valid_fields (sfs ex_ns_rel1) (absvals (svs ex_ns_rel1)) = true /\
+  s_eq ex_ns_rel1 ex_ns_rel2 = Ok true /\
+  s_digest_rel (mkS 2 1 2 0 [FS (FName true)] CkNone true [VS (VN [[97]; []])]) = Ok ([1; 97; 0], false).
+Proof. repeat split. Qed.
 End Canon.
 
 (* ---------------- dns.set.Set: a set that remembers first-insertion order ---------------- *)
@@ -480,6 +505,19 @@ Theorem immutable_mutators_raise : forall st op r s,
   rstep st op = (st, E eTypeError).
 Proof. exact imm_mutators_raise. Qed.
 Print Assumptions immutable_mutators_raise.
+
+Theorem rdataset_match_spec : forall s c t v,
+  r_match s c t v = true <-> cls s = c /\ typ s = t /\ cov s = v.
+Proof. exact r_match_spec. Qed.
+Print Assumptions rdataset_match_spec.
+
+(* RRset.full_match / match(name, ...): all five identifying attributes, the owner name
+   case-insensitively, the deleting class exactly *)
+Theorem rrset_full_match_spec : forall s n c t v d,
+  r_full_match s n c t v d = true <->
+  cls s = c /\ typ s = t /\ cov s = v /\ map lower_l (oname s) = map lower_l n /\ deleting s = d.
+Proof. exact r_full_match_spec. Qed.
+Print Assumptions rrset_full_match_spec.
 
 (* ---------------- immutability guard, constify ---------------- *)
 
